@@ -18,7 +18,7 @@ inline double convMedian(int kernel){ return kernel == 1 ? 0.1 : 0.005; }   // m
 // order chain of the uniform kernel (orders 3..8 on the same case): error(k+1)/error(k). Calibration (8 seeds x 80 cases, 2026-09-27):
 // medians 0.07..0.22 (potential), 0.16..0.27 (force) for every pair of adjacent orders; per-case maxima 23 (potential: order 3 can be
 // accidentally accurate), 3.2 (force)
-inline double chainHard(){ return 200.0; }    // per case: ~8 x the largest ratio seen
+inline double chainHard(){ return 50.0; }     // per case, force error only: ~15 x the largest force ratio seen (potential ratios reach 330 by accident)
 inline double chainMedian(){ return 0.5; }    // median over a campaign (>= 15 eligible cases): ~2 x the largest median seen
 inline double boundPot(int kernel, int order, int real, bool periodic){ const Row* r = find(kernel, order, real, periodic ? 1 : 0); return r ? r->pot : 1e300; }
 inline double boundForce(int kernel, int order, int real, bool periodic){ const Row* r = find(kernel, order, real, periodic ? 1 : 0); return r ? r->force : 1e300; }
